@@ -1,7 +1,7 @@
 """C01 — get_basis (no options) returns exactly the curated data it is composed from.
 Model: BSE.Compose.composeTable over the closure of JSON files (ordered objects); the result must
 equal the implementation's dictionary key for key, in order, every string byte-identical."""
-import json, os, tempfile, shutil
+import json, os, tempfile, shutil, random
 from common import *
 import gendir
 
@@ -100,10 +100,25 @@ def recompose(files, table_rel, display_name):
 
 def work(item):
     bse = import_bse()
-    key, ver, data_dir, table_rel, display = item
+    key, ver, data_dir, table_rel, display = item[:5]
+    siblings = item[5] if len(item) > 5 else []
     out = dict(key=key, ver=ver, table=table_rel)
     kw = {} if data_dir is None else dict(data_dir=data_dir)
     dd = data_dir or bse.get_data_dir()
+    # a prior call history in this process: basis sets that share element files with this one are retrieved first with options that
+    # rewrite their (private) copy in place, and the values handed out are scribbled over.  None of this may show in what follows.
+    for sk, sv in siblings:
+        try:
+            h = bse.get_basis(sk, version=sv, uncontract_segmented=True, uncontract_spdf=True, **kw)
+            h2 = bse.get_basis(sk, version=sv, **kw)
+            for el in h2['elements'].values():
+                for shl in el.get('electron_shells', []):
+                    shl['exponents'].clear()
+                el.pop('references', None)
+            h2['elements'].clear()
+        except Exception:
+            pass
+    out['history'] = len(siblings)
     try:
         r = bse.get_basis(key, version=ver, **kw)
         out['impl'] = ('ok', odump(r))
@@ -184,7 +199,26 @@ def run(ctx):
     R = Result('C01')
     md = bse.get_metadata()
     pairs = sample_pairs(ctx, ctx.n(110, 10 ** 6))
-    items = [(k, v, None, md[k]['versions'][v]['file_relpath'], md[k]['display_name']) for k, v in pairs]
+    # which index entries share an element file with which (their composition reads the same component data)
+    dd = bse.get_data_dir()
+    users = {}
+    for k, e in md.items():
+        for v, ve in e['versions'].items():
+            try:
+                with open(os.path.join(dd, ve['file_relpath']), encoding='utf-8') as fh:
+                    for ef in set(json.load(fh)['elements'].values()):
+                        users.setdefault(ef, []).append((k, v))
+            except Exception:
+                pass
+    sib = {}
+    for ef, us in users.items():
+        for u in us:
+            sib.setdefault(u, [])
+            sib[u] += [w for w in us if w != u and w not in sib[u]]
+    rs = random.Random('c01-hist-%d' % ctx.seed)
+    items = [(k, v, None, md[k]['versions'][v]['file_relpath'], md[k]['display_name'],
+              rs.sample(sorted(sib.get((k, v), [])), min(2, len(sib.get((k, v), []))))) for k, v in pairs]
+    R.extra['entries_checked_after_sibling_history'] = len([1 for it in items if it[5]])
     emptied = 0
     for i in range(0, len(items), 45):
         outs = pmap(work, items[i:i + 45])
